@@ -515,7 +515,7 @@ Definition spec_meta (q : freq) : list (bytes * bytes) :=
   let last3 := [(N_REQUEST_METHOD, q_method q); (N_CONTENT_LENGTH, dec_of_Z (q_clen q));
                 (N_CONTENT_TYPE, match h_get rh H_CONTENT_TYPE with [] => V_FORM | c => c end)] in
   let is_last3 (n : bytes) := existsb (fun kv => bytes_eqb (fst kv) n) last3 in
-  let is_hdr (n : bytes) := existsb (fun kv => bytes_eqb (fst kv) n) hdrs in
+  let is_hdr (n : bytes) := existsb (fun kv => bytes_eqb (HTTP_ ++ mangle (fst kv)) n) rh in
   filter (fun kv => negb (env_has q (fst kv))) (fixed ++ hdrs)
   ++ map (fun kv => (to_upper (fst kv), snd kv))
          (filter (fun kv => negb (is_last3 (to_upper (fst kv))) && negb (is_hdr (to_upper (fst kv)))) (q_env q))
